@@ -218,7 +218,7 @@ prop(
     "C06", "exploration",
     rule="one evaluation = one tampered BlockFilters answer delivered, one advance of the filtered height, or one history entry / cell of a registered script compared with the reference index up to the block number the client reports for that script; "
          "a cell = (operator, script-active or quiet height) / (advance, label of the message that caused it)",
-    sizes=tiers(16, 100, 60, 16, 600, 900, min_evals=2000, min_cells=20),
+    sizes=tiers(16, 400, 60, 16, 4000, 900, min_evals=2000, min_cells=20),
     technique="runtime monitoring: adversarial peers tamper BlockFilters answers (hash chain and check points stay honest), trick-agnostic oracle = reference indexer compared with the client's answers up to its self-reported script block numbers and at convergence",
     level_text="With 2-4 proven peers of which at least one is honest, deviating peers answer GetBlockFilters with 13 kinds of tampered batches (filter bytes, neighbour / quiet-block filter, start +-1, random / other-height / swapped block hashes, count mismatch, shorter batch, garbage tail, swapped filters, shifted batch), aimed at heights where a registered script is active, on both the cached-hash and latest-hash paths; no registered script's activity at or below its reported block number is missing from get_transactions / get_cells, and at convergence the index equals the reference.",
     level_note="deviators never reach the quorum for filter hashes / check points (C07 covers that vote); scripts are registered from block 0 before the sync so the recorded C03/C04/C09 findings cannot interfere",
